@@ -4,6 +4,7 @@ import (
 	"fmt"
 
 	"github.com/fxamacker/cbor/v2"
+	"github.com/taurusgroup/multi-party-sig/internal/cborutil"
 	"github.com/taurusgroup/multi-party-sig/internal/round"
 	"github.com/taurusgroup/multi-party-sig/pkg/hash"
 	"github.com/taurusgroup/multi-party-sig/pkg/party"
@@ -96,7 +97,7 @@ func (m *Message) MarshalBinary() ([]byte, error) {
 
 func (m *Message) UnmarshalBinary(data []byte) error {
 	deserialized := m.toMarshallable()
-	if err := cbor.Unmarshal(data, deserialized); err != nil {
+	if err := cborutil.Unmarshal(data, deserialized); err != nil {
 		return err
 	}
 	m.SSID = deserialized.SSID
